@@ -677,10 +677,12 @@ func (p *linkTailParser) parse() (n int, dest, title string) {
 			return -1, "", ""
 		}
 	}
+	destEnd := p.pos
 	p.skipWhitespaces()
 
 	var titleBuilder strings.Builder
-	if p.pos < len(p.text) && strings.ContainsRune("'\"(", rune(p.text[p.pos])) {
+	// The title must be separated from the destination by whitespace.
+	if p.pos > destEnd && p.pos < len(p.text) && strings.ContainsRune("'\"(", rune(p.text[p.pos])) {
 		opener := p.text[p.pos]
 		closer := p.text[p.pos]
 		if closer == '(' {
